@@ -69,6 +69,7 @@ func (s SScript) describe() map[string]interface{} {
 		"backend": s.Cfg.Kind, "ttl": int64(s.Cfg.TTL), "jitter": s.Cfg.Jitter.F, "strategy": s.Cfg.Strategy,
 		"deleteExpiredAfter": int64(s.Cfg.DEA), "countSoftLimit": s.Cfg.CSL, "evictFraction": s.Cfg.EF.F,
 		"collidingKeys": s.Collide, "ops": s.opsString(), "realJanitor": s.Cfg.RealJanitor, "heapInUseSoftLimit": s.Cfg.HeapLimit, "sysMemSoftLimit": s.Cfg.SysLimit,
+		"constructedVia": s.Cfg.Via, "failoverMaxStaleness": int64(s.Cfg.ViaMS),
 	}
 }
 
@@ -156,6 +157,17 @@ func genCfgTTL(rng *rand.Rand) time.Duration {
 
 // genScript derives one script from (seed, index) only, so a case replays exactly.
 func genScript(profile string, seed int64, idx int, tier string) SScript {
+	s := genScript0(profile, seed, idx, tier)
+	// every fourth script of the map backends runs on the default backend of a Failover configured with the same options
+	// (config plumbing: BackendConfig must reach the backend unaltered, whatever the failover's own settings)
+	if idx%4 == 1 && s.Cfg.Kind != "sync" {
+		s.Cfg.Via = "failover"
+		s.Cfg.ViaMS = []time.Duration{0, time.Millisecond, time.Second, 10 * time.Minute, -time.Second}[(idx/4)%5]
+	}
+	return s
+}
+
+func genScript0(profile string, seed int64, idx int, tier string) SScript {
 	rng := rand.New(rand.NewSource(seed*1000003 + int64(idx)*7919 + int64(len(profile))))
 	s := SScript{}
 	s.Collide = profile == "c09"
@@ -623,7 +635,11 @@ func (x *seqExec) runScript(id string, sc SScript, profile string) *seqFail {
 					longExpired0 := e.E != 0 && e.E < t0-dea
 					longExpired1 := e.E != 0 && e.E < t1-dea
 					if !kept && !longExpired1 {
-						return &seqFail{"monitor", "C11", "seq:cleanup-removed-live", fmt.Sprintf("op #%d cleanup removed key #%d whose expiry %d is not more than DeleteExpiredAfter (%dns) before the cycle [%d,%d] (0 = never expires); state before: %s", i, kid2, e.E, dea, t0, t1, before), i, []string{"C10"}} // (an entry within its ttl bounds, or one that never expires, is gone: C10)
+						also := []string{"C10"} // (an entry within its ttl bounds, or one that never expires, is gone: C10)
+						if e.E == 0 || e.E > t1 {
+							also = append(also, "C07") // (not even expired: no reference map loses a written key that nobody deleted)
+						}
+						return &seqFail{"monitor", "C11", "seq:cleanup-removed-live", fmt.Sprintf("op #%d cleanup removed key #%d whose expiry %d is not more than DeleteExpiredAfter (%dns) before the cycle [%d,%d] (0 = never expires); state before: %s", i, kid2, e.E, dea, t0, t1, before), i, also}
 					}
 					if kept && scanOn && longExpired0 {
 						return &seqFail{"monitor", "C11", "seq:cleanup-kept-long-expired", fmt.Sprintf("op #%d cleanup kept key #%d although its expiry %d lies more than DeleteExpiredAfter (%dns) before the cycle [%d,%d]; state before: %s", i, kid2, e.E, dea, t0, t1, before), i, nil}
